@@ -322,7 +322,7 @@ def sympy_part(ctx):
         near(got, want, 1e-6 * max(1.0, sum(abs(c) for c in terms.values())), "sympy:expectation", "sympy get_expectation_value")
         return nontrivial(coefs, psi), op_labels(case["op"], coefs, n) | circ_labels(case, n)
 
-    ctx.search("sympy", pure_cases(3, mg, names=SYMPY_NAMES, max_terms=3, max_controls=2, angle=ang), body)
+    ctx.search("sympy", pure_cases(3, mg, names=SYMPY_NAMES, max_terms=3, max_controls=2, angle=ang), body, shrink_calls=60)
 
 
 # ------------------------------------------------------------------------------------------------ finite shots
@@ -413,7 +413,8 @@ def sampled_search(ctx, name, flavours):
         labs = op_labels(case["op"], coefs, n) | circ_labels(case, n) | {f"shots={N}", "flavour=" + case["flavour"]}
         return nontrivial(coefs, psi), labs
 
-    ctx.search(name, cases(), body)
+    # failing cases of the shot-by-shot flavour cost seconds each: bound the shrinker
+    ctx.search(name, cases(), body, shrink_calls=40 if "postselect" in flavours else 200)
 
 
 @part("sampled", quick=100, thorough=3200)
